@@ -56,3 +56,11 @@ Proof.
          (nth 1 ms {| aVer := 0; aHdr := []; aSets := [] |}).
   vm_compute. split; [reflexivity|discriminate].
 Qed.
+
+(* the header widths the model decodes NetFlow v9 and IPFIX messages with are the field widths of the Go structs
+   NFv9Packet / IPFIXPacket (regenerated from decoders/netflow on every build), and the word the template and sampling
+   keys call "domain" is SourceId / ObservationDomainId *)
+From GF Require Import Spec.DocCheck2.
+Theorem c03_header_layout_is_the_go_struct : nf_layout_ok = true.
+Proof. vm_compute. reflexivity. Qed.
+Print Assumptions c03_header_layout_is_the_go_struct.
